@@ -9,6 +9,7 @@ import (
 	"honnef.co/go/tools/analysis/facts/generated"
 	"honnef.co/go/tools/analysis/lint"
 	"honnef.co/go/tools/analysis/report"
+	"honnef.co/go/tools/go/ast/astutil"
 	"honnef.co/go/tools/go/types/typeutil"
 	"honnef.co/go/tools/internal/passes/buildir"
 	"honnef.co/go/tools/knowledge"
@@ -103,9 +104,27 @@ func run(pass *analysis.Pass) (any, error) {
 			report.Report(pass, node, "should use String() instead of fmt.Sprintf",
 				report.Fixes(edit.Fix("Replace with call to String method", edit.ReplaceWithNode(pass.Fset, node, replacement))))
 		} else if types.Unalias(typ) == types.Universe.Lookup("string").Type() {
+			replacement := arg
+			switch arg.(type) {
+			case *ast.BinaryExpr, *ast.UnaryExpr, *ast.StarExpr:
+				// The call was a single operand. If it is the operand of an index or slice expression, the argument
+				// has to remain one, or 'fmt.Sprintf("%s", a+b)[1:]' would turn into 'a + b[1:]'.
+				if path, _ := astutil.PathEnclosingInterval(code.File(pass, node), node.Pos(), node.End()); len(path) > 1 {
+					switch parent := path[1].(type) {
+					case *ast.IndexExpr:
+						if parent.X == node {
+							replacement = &ast.ParenExpr{X: arg}
+						}
+					case *ast.SliceExpr:
+						if parent.X == node {
+							replacement = &ast.ParenExpr{X: arg}
+						}
+					}
+				}
+			}
 			report.Report(pass, node, "the argument is already a string, there's no need to use fmt.Sprintf",
 				report.FilterGenerated(),
-				report.Fixes(edit.Fix("Remove unnecessary call to fmt.Sprintf", edit.ReplaceWithNode(pass.Fset, node, arg))))
+				report.Fixes(edit.Fix("Remove unnecessary call to fmt.Sprintf", edit.ReplaceWithNode(pass.Fset, node, replacement))))
 		} else if typ.Underlying() == types.Universe.Lookup("string").Type() {
 			replacement := &ast.CallExpr{
 				Fun:  &ast.Ident{Name: "string"},
